@@ -72,6 +72,8 @@ def main():
                 res["check"] = {"id": prop, "tier": "quick", "exit": rc, "detected": rc == 1 and f"VIOLATION property={prop}" in out, "signatures": sorted(set(sigs))[:6], "wall_s": round(time.time() - t0, 1)}
             ok = all(res.get(k) for k in ("patch_applies", "suite_passes_with_change", "demo_fails_with_change", "demo_passes_without_change"))
             res["confirmed"] = bool(ok)
+            if (meta.get("reconfirmed") or {}).get("note"):
+                res["note"] = meta["reconfirmed"]["note"]  # explanations written by hand survive a re-run
             meta["reconfirmed"] = res
             if "check" in res:
                 meta["checks_run"] = {prop: res["check"]}
